@@ -192,4 +192,67 @@ let () =
       let st = (match rd_int r with 0 -> CAbsent | 1 -> CPlain | 2 -> CPyprojectWithSection | _ -> CPyprojectWithoutSection) in (n, st))) r in
     wr_opt (fun (d, n) -> wr_int (int_of_nat d); wr_name n) (find_config dirs O));
   port "smart_quotes" (fun r -> wr_m wr_str (smart_quotes (rd_str r)));
-  port "ellipses" (fun r -> wr_m wr_str (ellipses (rd_str r)))
+  port "ellipses" (fun r -> wr_m wr_str (ellipses (rd_str r)));
+  ()
+
+(* ---- AST decoding ---- *)
+let rec rd_inl r : inl =
+  match rd_int r with
+  | 0 -> IRaw (rd_str r)
+  | 1 -> ICode (rd_str r)
+  | 2 -> IBreak (rd_bool r)
+  | 3 -> ILit (rd_str r)
+  | 4 -> IHtml (rd_str r)
+  | 5 -> IFootRef (rd_str r)
+  | 6 -> let k = rd_ikind r in let c = rd_list rd_inl r in INode (k, c)
+  | _ -> raise (Bad "inl tag")
+and rd_ikind r : ikind =
+  match rd_int r with
+  | 0 -> KEmph | 1 -> KStrong | 2 -> KStrike
+  | 3 -> let d = rd_str r in let t = rd_opt rd_str r in KLink (d, t)
+  | 4 -> let d = rd_str r in let t = rd_opt rd_str r in KImage (d, t)
+  | 5 -> KAuto (rd_str r)
+  | 6 -> KUrl (rd_str r)
+  | _ -> raise (Bad "ikind tag")
+
+let rd_leaf r : leaf =
+  match rd_int r with
+  | 0 -> let ch = rd_opt rd_bool r in let c = rd_list rd_inl r in LPara (ch, c)
+  | 1 -> let se = rd_bool r in let lv = nat_of_int (rd_int r) in let c = rd_list rd_inl r in LHeading (se, lv, c)
+  | 2 -> let lang = rd_str r in let extra = rd_str r in let fc = rd_n r in let fl = nat_of_int (rd_int r) in
+         let content = rd_str r in LCode (lang, extra, fc, fl, content)
+  | 3 -> LThematic
+  | 4 -> LBlank
+  | 5 -> let l = rd_str r in let d = rd_str r in let t = rd_opt rd_str r in LLinkRef (l, d, t)
+  | 6 -> let ds = rd_strs r in let rows = rd_list (rd_list (rd_list rd_inl)) r in LTable (ds, rows)
+  | 7 -> LHtml (rd_str r)
+  | _ -> raise (Bad "leaf tag")
+
+let rec rd_blk r : blk =
+  match rd_int r with
+  | 0 -> BLeaf (rd_leaf r)
+  | 1 -> let k = rd_bkind r in let c = rd_list rd_blk r in BNode (k, c)
+  | _ -> raise (Bad "blk tag")
+and rd_bkind r : bkind =
+  match rd_int r with
+  | 0 -> let o = rd_bool r in let b = rd_str r in let s = rd_z r in let t = rd_bool r in KList (o, b, s, t)
+  | 1 -> KItem | 2 -> KQuote
+  | 3 -> KAlert (rd_str r)
+  | 4 -> KFootDef (rd_str r)
+  | _ -> raise (Bad "bkind tag")
+
+let rd_doc r : doc =
+  let bs = rd_list rd_blk r in
+  let defs = rd_list (fun r -> let l = rd_str r in let d = rd_str r in let t = rd_opt rd_str r in (l, (d, t))) r in
+  { d_blocks = bs; d_refdefs = defs }
+
+let rd_mdopts r : mdopts =
+  let w = rd_z r in let se = rd_bool r in let cl = rd_bool r in let sq = rd_bool r in let el = rd_bool r in
+  let sp = (match rd_int r with 0 -> LPreserve | 1 -> LLoose | _ -> LTight) in
+  { o_width = w; o_semantic = se; o_cleanups = cl; o_smartquotes = sq; o_ellipses = el; o_spacing = sp }
+
+let () =
+  port "dedent" (fun r -> wr_str (dedent (rd_str r)));
+  port "prepare_body" (fun r -> wr_str (prepare_body (rd_str r)));
+  (* render_parsed: options, document -> text *)
+  port "render_parsed" (fun r -> let o = rd_mdopts r in let d = rd_doc r in wr_m wr_str (render_parsed o d))
